@@ -1,5 +1,5 @@
 //! serde operations (C17): build a real `Plan` / `HistoryEntry` from a typed description (never by
-//! deserialising), serialise it with the call the code uses (`serde_json::to_string_pretty`), report the
+//! deserialising), write it with the functions the code uses (`write_plan`; `History::add_entry` -> `save`), report the
 //! complete decoded JSON document in canonical form, then load it back with `serde_json::from_str` and
 //! report whether that succeeds, gives a value equal field by field, and re-serialises to the same document.
 //!
@@ -380,35 +380,65 @@ impl<T: SameValue> SameValue for Vec<T> {
     }
 }
 
-fn roundtrip<T>(value: &T) -> String
+/// `text` is what the code under test wrote to disk; report the decoded document and what loading it gives
+fn judge_text<T>(value: &T, text: &str) -> String
 where
     T: serde::Serialize + serde::de::DeserializeOwned + SameValue,
 {
-    // the call sites use to_string_pretty / to_writer_pretty
-    let text = match serde_json::to_string_pretty(value) {
-        Ok(t) => t,
-        Err(_) => return "sererr".into(),
-    };
-    let doc: serde_json::Value = match serde_json::from_str(&text) {
+    let doc: serde_json::Value = match serde_json::from_str(text) {
         Ok(d) => d,
         Err(_) => return "notjson".into(),
     };
     let mut c = String::new();
     canon(&doc, &mut c);
-    match serde_json::from_str::<T>(&text) {
+    // the load sites use serde_json::from_str / from_reader on the file content
+    match serde_json::from_str::<T>(text) {
         Ok(back) => {
             let same = value.same_value(&back)
                 && match serde_json::to_string_pretty(&back) {
-                Ok(t2) => {
-                    // maps are unordered: compare the decoded documents
-                    serde_json::from_str::<serde_json::Value>(&t2).map(|d2| d2 == doc).unwrap_or(false)
-                },
-                Err(_) => false,
-            };
+                    Ok(t2) => {
+                        // maps are unordered: compare the decoded documents
+                        serde_json::from_str::<serde_json::Value>(&t2).map(|d2| d2 == doc).unwrap_or(false)
+                    },
+                    Err(_) => false,
+                };
             format!("ok {} de=ok same={}", c, u8::from(same))
         },
         Err(e) => format!("ok {} de={}", c, err_kind(&e.to_string())),
     }
+}
+
+/// plan.json exactly as the code writes it: `renamify_core::write_plan` into a scratch file
+fn plan_via_write_plan(p: &Plan) -> String {
+    let dir = fresh("serde");
+    let path = dir.join("plan.json");
+    let res = renamify_core::write_plan(p, &path);
+    let out = match res {
+        Err(_) => "sererr".to_string(),
+        Ok(()) => match std::fs::read_to_string(&path) {
+            Ok(text) => judge_text(p, &text),
+            Err(_) => "notjson".to_string(),
+        },
+    };
+    let _ = std::fs::remove_dir_all(&dir);
+    out
+}
+
+/// history.json exactly as the code writes it: `History::load` (empty) + `add_entry` (which saves)
+fn history_via_save(h: &HistoryEntry) -> String {
+    let dir = fresh("serdeh");
+    let out = (|| -> String {
+        let Ok(mut hist) = renamify_core::history::History::load(&dir) else { return "sererr".into() };
+        if hist.add_entry(h.clone()).is_err() {
+            return "sererr".into();
+        }
+        match std::fs::read_to_string(dir.join("history.json")) {
+            Ok(text) => judge_text(&vec![h.clone()], &text),
+            Err(_) => "notjson".into(),
+        }
+    })();
+    let _ = std::fs::remove_dir_all(&dir);
+    out
 }
 
 pub fn dispatch(f: &[&str]) -> Option<String> {
@@ -419,11 +449,11 @@ pub fn dispatch(f: &[&str]) -> Option<String> {
     let mut c = Cursor::new(&f[2..]);
     Some(match which {
         "plan" => match p_plan(&mut c) {
-            Some(p) if c.done() => roundtrip(&p),
+            Some(p) if c.done() => plan_via_write_plan(&p),
             _ => "bad-req".into(),
         },
         "history" => match p_history(&mut c) {
-            Some(h) if c.done() => roundtrip(&vec![h]),
+            Some(h) if c.done() => history_via_save(&h),
             _ => "bad-req".into(),
         },
         _ => "bad-req".into(),
